@@ -4,3 +4,8 @@ from mpilot.commands import Command
 class Foo(Command):
     def execute(self, **kw):
         return "vlib_c.Foo"
+
+
+class FooVariant(Foo):
+    # a command that reuses an implementation: no execute() of its own, only another command name
+    name = "Variant"
